@@ -1403,6 +1403,7 @@ func (fr *Frame) checkEnsures(ret *ssa.Return, rs []Term) {
 			continue
 		}
 		e := fr.env(ret.Block())
+		e.lax = en.AtReturn < 0
 		fr.bindResults(e, sig, rs, nil)
 		t, err := e.Bool(en.E)
 		if err != nil {
@@ -1593,6 +1594,23 @@ func runTop(c *Ctx, fn *ssa.Function, fc *FuncContract) (err error) {
 			}
 			if !found {
 				fr.bindingFailure(&Clause{Label: fmt.Sprintf("loop%d", k), Where: fc.Where, Src: "loop ordinal does not exist"}, fmt.Errorf("function has %d loops", len(fr.loopOrd)))
+			}
+		}
+		// a postcondition tied to the n-th return statement must have that statement
+		nret := 0
+		for _, b := range fn.Blocks {
+			if b == fn.Recover {
+				continue
+			}
+			for _, in := range b.Instrs {
+				if _, ok := in.(*ssa.Return); ok {
+					nret++
+				}
+			}
+		}
+		for _, en := range fc.Ensures {
+			if en.AtReturn >= nret {
+				fr.bindingFailure(en, fmt.Errorf("ensures@%d: the function has only %d return statements", en.AtReturn, nret))
 			}
 		}
 		for _, cs := range fc.Calls {
